@@ -20,7 +20,8 @@ ASSUMPTIONS = [
     'identical queries are answered from the session\'s query-result cache without touching the database: the harness makes every re-fetch a distinct query',
     'collections: one collection of one object; batch prefetching of other objects\' collections is switched off (nplus1_threshold=1000); '
     'the reading session does not modify the collection itself',
-    'values observed through query results that are not entity instances (select(p.a for p in P)) are outside the statement',
+    'the statement is about values observed THROUGH AN OBJECT (attribute access, collection of an object): a scalar projection (select(p.a for p in P)) creates no object state and no read bit, so a value seen only in a projection is not protected, and a projection itself always shows the current database value even if the session holds an older one '
+    '(pinned by a decision test on every run: 4 scenarios); re-fetching the OBJECT by a query is protected',
 ]
 RULE = ('exhaustive: every reader program of a fixed pool (scalar: reads / re-fetch queries / own writes over plain, volatile and lazy attributes; '
         'one-to-many (back-reference plain / member of a secondary unique key / member of the primary key) and many-to-many collections: len / iteration / re-fetch of items / load of the other side) x every writer action '
@@ -119,6 +120,13 @@ def gen_cases(ctx, deep=False):
         for m in (0, 1) + ((2,) if big or k in (0, 1, 7, 10) else ()):
             for ops in insertions(prog, SC_ACTS, m):
                 if valid_scalar(ops): put({'kind': 'scalar', 'db0': SC_DB0, 'ops': ops})
+    # to-one reference (I[1].owner) changing under the reader: the value is the identity of the referenced row
+    for prog in ([['R'], ['F'], ['R']], [['F'], ['R'], ['F'], ['R']], [['R'], ['F'], ['F'], ['R']]):
+        for db0 in (1, None):
+            for m in (0, 1, 2):
+                for ops in insertions(prog, [['X', 2], ['X', None], ['X', 1]], m):
+                    put({'kind': 'ref', 'db0': db0, 'ops': ops})
+    put({'kind': 'proj'})
     for k, prog in enumerate(O2M_PROGS):
         for m in (0, 1) + ((2,) if big or k in (0, 1) else ()) + ((3,) if huge and len(prog) <= 3 else ()):
             for ops in insertions(prog, O2M_ACTS, m):
@@ -181,7 +189,7 @@ def cev(e):
     raise ValueError(e)
 
 def coq_case(c, r):
-    if c['kind'] == 'scalar':
+    if c['kind'] in ('scalar', 'ref'):
         tev = clist(r['events'], lambda e: '(%s %d %s)' % ('TObs' if e[0] == 'obs' else 'TWrite', e[1], cval(e[2])))
         return 'outcome_eqb (outcome VOL %s) (%s, %s)' % (clist(r['model'], cev), vlib.cbool(r['failed']), tev)
     obs = '[' + '; '.join(cnats(e[2]) for e in r['events']) + ']'
@@ -212,6 +220,7 @@ def run_bools(ctx, exprs, chunk=900):
 
 
 def nontrivial_case(c, r):
+    if c['kind'] == 'proj': return False
     if r['failed']: return True
     seen_writer = False
     for op in c['ops']:
@@ -230,7 +239,17 @@ def correspondence(ctx):
         return Corr(cases=len(_cache), disagreements=[{'what': 'real sessions did not finish (deadlock or driver error)', 'input': e.case, 'impl': str(e.what)[:1500]}])
     exprs, meta, nontriv = [], [], set()
     for c, r in zip(cases, results):
-        dist['scalar' if c['kind'] == 'scalar' else 'many_to_many' if c['m2m'] else {'plain': 'one_to_many', 'unique': 'one_to_many_ref_in_unique_key', 'pk': 'one_to_many_ref_in_pk'}[c.get('ref', 'plain')]] += 1
+        if c['kind'] == 'proj':
+            want = [{'name': 'projection, then attribute of the (not yet loaded) object', 'first': 1, 'second': 9},
+                    {'name': 'attribute of the object, then projection', 'first': 1, 'second': 9},
+                    {'name': 'projection, then another projection', 'first': 1, 'second': 9},
+                    {'name': 'attribute, then re-fetch of the object by a query', 'first': 1, 'second': 'UnrepeatableReadError'}]
+            dist['projection_decisions'] = len(r['table'])
+            if r['table'] != want:
+                disagreements.append({'what': 'values observed through scalar projections: pinned behaviour changed', 'input': 'proj', 'impl': r['table'], 'model': want})
+            continue
+        if c['kind'] == 'ref': dist['to_one_reference'] = dist.get('to_one_reference', 0) + 1
+        dist['scalar' if c['kind'] in ('scalar', 'ref') else 'many_to_many' if c['m2m'] else {'plain': 'one_to_many', 'unique': 'one_to_many_ref_in_unique_key', 'pk': 'one_to_many_ref_in_pk'}[c.get('ref', 'plain')]] += 1
         dist['ended_in_UnrepeatableReadError'] += bool(r['failed'])
         dist['writer_actions'] += sum(1 for op in c['ops'] if op[0] in ('X', 'move', 'link', 'unlink'))
         dist['observations'] += len(r['events'])
@@ -260,7 +279,8 @@ def correspondence(ctx):
 def oracle(c, r):
     """C21 checked directly on what the real reading session observed (no model). Returns list of (key, what)."""
     bad = []
-    if c['kind'] == 'scalar':
+    if c['kind'] == 'proj': return bad
+    if c['kind'] in ('scalar', 'ref'):
         last = {}
         for e in r['events']:
             a = e[1]
